@@ -1742,6 +1742,32 @@ pub fn run_ext(r: &mut Runner, rng: &mut Rng, args: &Args, out: &mut Out) {
             r.progx_case(&env0, &body1(s_expr(icall("sincos", vec![var(4), p.clone(), var(4)]))), "any", out);
         }
     }
+    // (x1b) the operators of the old fragment on the variables of this environment (bool vectors / matrices, arrays,
+    //       structs, enums, const and modified types): every unary operator on every operand, binary operators on a slice
+    for op in UNOPS {
+        for x in &operands {
+            r.progx_case(&env0, &body1(s_expr(un(op, x.clone()))), "any", out);
+        }
+    }
+    for op in ARITH.iter().chain(ASSIGN.iter()) {
+        for x in &operands {
+            for y in &operands {
+                k += 1;
+                if thorough || k % 23 == 0 {
+                    r.progx_case(&env0, &body1(s_expr(bin(op, x.clone(), y.clone()))), "any", out);
+                }
+            }
+        }
+    }
+    for x in &operands {
+        for y in &operands {
+            k += 1;
+            if thorough || k % 11 == 0 {
+                r.progx_case(&env0, &body1(s_expr(tern(var(0), x.clone(), y.clone()))), "any", out);
+                r.progx_case(&env0, &body1(s_expr(tern(x.clone(), y.clone(), y.clone()))), "any", out);
+            }
+        }
+    }
     // (x2) subscripts: every variable and some composites, indexed by every operand
     for a in &operands {
         for (j, i) in operands.iter().enumerate() {
